@@ -717,7 +717,9 @@ static Token *find_closing_paren(Token *tok) {
 static Type *declarator(Token **rest, Token *tok, Type *ty) {
   ty = pointers(&tok, tok, ty);
 
-  if (equal(tok, "(")) {
+  // In a parameter without a name, "(" followed by a type name or ")"
+  // starts a parameter list, not a nested declarator: `int f(int (int))`.
+  if (equal(tok, "(") && !is_typename(tok->next) && !equal(tok->next, ")")) {
     // The suffix after the parentheses binds first, so read it before
     // the nested declarator. (Finding the ")" by parsing the nested
     // declarator twice would take time exponential in the nesting.)
@@ -747,7 +749,7 @@ static Type *declarator(Token **rest, Token *tok, Type *ty) {
 static Type *abstract_declarator(Token **rest, Token *tok, Type *ty) {
   ty = pointers(&tok, tok, ty);
 
-  if (equal(tok, "(")) {
+  if (equal(tok, "(") && !is_typename(tok->next) && !equal(tok->next, ")")) {
     Token *start = tok;
     tok = find_closing_paren(start->next);
     ty = type_suffix(rest, tok->next, ty);
